@@ -34,6 +34,8 @@ type Rig struct {
 	Storage   *mem.Storage
 	Log2Page  uint64
 	CP        *FakeCPs
+	// MMU is the fake MMU on the driver's "MMU" port (Options.Migration).
+	MMU *FakeMMU
 
 	ec *simkit.EventCounter
 }
@@ -50,6 +52,13 @@ type Options struct {
 	// driver's GPU port. If false the GPUs are registered with dummy,
 	// unconnected ports (enough for the allocation API).
 	Connected bool
+	// Migration (implies Connected): additionally give every fake command
+	// processor a PMC port (Driver.RemotePMCPorts) and connect a fake MMU to
+	// the driver's MMU port, so that the page-migration handshake
+	// (vm.PageMigrationReqToDriver -> RDMA drain -> shootdown -> page copy ->
+	// GPU restart -> RDMA restart -> vm.PageMigrationRspFromDriver) can be run
+	// with Rig.Migrate.
+	Migration bool
 }
 
 // NewRig builds the driver. Call after driver.VerifUseBuddyAllocator if the
@@ -69,8 +78,16 @@ func NewRig(o Options) *Rig {
 		b = b.WithMagicMemoryCopyMiddleware()
 	}
 	r.Driver = b.Build("Driver")
-	if o.Connected {
+	if o.Connected || o.Migration {
 		r.CP = newFakeCPs(r, o.GPUs)
+		if o.Migration {
+			for i := range o.GPUs {
+				pmc := r.CP.Agent.NewPort(fmt.Sprintf("PMC%d", i+1), 1, 1)
+				r.CP.PMCPorts = append(r.CP.PMCPorts, pmc)
+				r.Driver.RemotePMCPorts = append(r.Driver.RemotePMCPorts, pmc)
+			}
+			r.MMU = newFakeMMU(r)
+		}
 	} else {
 		for i, p := range o.GPUs {
 			port := sim.NewPort(nil, 1, 1, fmt.Sprintf("DummyCP%d.ToDriver", i+1))
@@ -89,14 +106,23 @@ type FakeCPs struct {
 	// 1-based GPU id of the port Launches[i] arrived at.
 	Launches  []*protocol.LaunchKernelReq
 	LaunchGPU []int
-	Counts    map[string]int
-	Unknown   []string
+	// PMCPorts[i] is the page-migration-controller port of GPU i+1
+	// (Options.Migration). Copies are the PageMigrationReqToCP messages in
+	// arrival order; CopyGPU[i] is the 1-based GPU id Copies[i] arrived at.
+	PMCPorts []sim.Port
+	Copies   []*protocol.PageMigrationReqToCP
+	CopyGPU  []int
+	Counts   map[string]int
+	Unknown  []string
+
+	drvGPU sim.Port
 }
 
 func newFakeCPs(r *Rig, gpus []driver.DeviceProperties) *FakeCPs {
 	f := &FakeCPs{Counts: map[string]int{}}
 	f.Agent = simkit.NewAgent("FakeCP", r.Engine, r.Freq)
-	ports := []sim.Port{r.Driver.GetPortByName("GPU")}
+	f.drvGPU = r.Driver.GetPortByName("GPU")
+	ports := []sim.Port{f.drvGPU}
 	for i, p := range gpus {
 		port := f.Agent.NewPort(fmt.Sprintf("ToDriver%d", i+1), 64, 64)
 		f.Ports = append(f.Ports, port)
@@ -122,6 +148,17 @@ func (f *FakeCPs) tick(a *simkit.Agent) bool {
 				rsp = protocol.NewLaunchKernelRsp(p.AsRemote(), req.Src, req.ID)
 			case *protocol.FlushReq, *protocol.MemCopyH2DReq, *protocol.MemCopyD2HReq:
 				rsp = sim.GeneralRspBuilder{}.WithSrc(p.AsRemote()).WithDst(m.Meta().Src).WithOriginalReq(m).Build()
+			// the command-processor side of the page-migration handshake
+			case *protocol.RDMADrainCmdFromDriver:
+				rsp = protocol.NewRDMADrainRspToDriver(p, f.drvGPU)
+			case *protocol.ShootDownCommand:
+				rsp = protocol.NewShootdownCompleteRsp(p, f.drvGPU)
+			case *protocol.PageMigrationReqToCP:
+				rsp = protocol.NewPageMigrationRspToDriver(p, f.drvGPU)
+			case *protocol.GPURestartReq:
+				rsp = protocol.NewGPURestartRsp(p, f.drvGPU)
+			case *protocol.RDMARestartCmdFromDriver:
+				rsp = protocol.NewRDMARestartRspToDriver(p, f.drvGPU)
 			}
 			if rsp != nil {
 				if err := p.Send(rsp); err != nil {
@@ -135,13 +172,79 @@ func (f *FakeCPs) tick(a *simkit.Agent) bool {
 			case *protocol.LaunchKernelReq:
 				f.Launches = append(f.Launches, req)
 				f.LaunchGPU = append(f.LaunchGPU, i+1)
-			case *protocol.FlushReq, *protocol.MemCopyH2DReq, *protocol.MemCopyD2HReq:
+			case *protocol.PageMigrationReqToCP:
+				f.Copies = append(f.Copies, req)
+				f.CopyGPU = append(f.CopyGPU, i+1)
+			case *protocol.FlushReq, *protocol.MemCopyH2DReq, *protocol.MemCopyD2HReq,
+				*protocol.RDMADrainCmdFromDriver, *protocol.ShootDownCommand, *protocol.GPURestartReq,
+				*protocol.RDMARestartCmdFromDriver:
 			default:
 				f.Unknown = append(f.Unknown, fmt.Sprintf("%T", m))
 			}
 		}
 	}
 	return progress
+}
+
+// FakeMMU plays the MMU's migration port: it sends the queued migration
+// requests to the driver and collects the driver's replies.
+type FakeMMU struct {
+	Agent   *simkit.Agent
+	Port    sim.Port
+	DrvPort sim.Port
+	out     []sim.Msg
+	Replies []*vm.PageMigrationRspFromDriver
+	Unknown []string
+}
+
+func newFakeMMU(r *Rig) *FakeMMU {
+	m := &FakeMMU{}
+	m.Agent = simkit.NewAgent("FakeMMU", r.Engine, r.Freq)
+	m.Port = m.Agent.NewPort("Migration", 4, 4)
+	m.DrvPort = r.Driver.GetPortByName("MMU")
+	simkit.Connect(r.Engine, r.Freq, "DriverToMMU", m.DrvPort, m.Port)
+	m.Agent.TickFn = func(a *simkit.Agent) bool {
+		progress := false
+		for len(m.out) > 0 {
+			if err := m.Port.Send(m.out[0]); err != nil {
+				break
+			}
+			m.out = m.out[1:]
+			progress = true
+		}
+		for {
+			in := m.Port.RetrieveIncoming()
+			if in == nil {
+				break
+			}
+			progress = true
+			if rsp, ok := in.(*vm.PageMigrationRspFromDriver); ok {
+				m.Replies = append(m.Replies, rsp)
+			} else {
+				m.Unknown = append(m.Unknown, fmt.Sprintf("%T", in))
+			}
+		}
+		return progress
+	}
+	return m
+}
+
+// NewMigrationReq returns an empty migration request addressed to the driver.
+func (r *Rig) NewMigrationReq() *vm.PageMigrationReqToDriver {
+	req := vm.NewPageMigrationReqToDriver(r.MMU.Port.AsRemote(), r.MMU.DrvPort.AsRemote())
+	req.MigrationInfo = &vm.PageMigrationInfo{GPUReqToVAddrMap: map[uint64][]uint64{}}
+	req.PageSize = uint64(1) << r.Log2Page
+	return req
+}
+
+// Migrate sends one migration request from the fake MMU and runs the engine
+// until it is idle (see RunDriver for the results). The replies that arrived
+// and the page copies the command processors were asked for are appended to
+// r.MMU.Replies and r.CP.Copies.
+func (r *Rig) Migrate(req *vm.PageMigrationReqToDriver, limit int64) (n int64, livelock bool, pv any, stack string) {
+	r.MMU.out = append(r.MMU.out, req)
+	r.MMU.Agent.TickLater()
+	return r.RunDriver(limit)
 }
 
 // RunDriver ticks the driver and runs the engine on the caller's goroutine
